@@ -279,6 +279,8 @@ def _mk_endpoint_classes():
             self.send_on_state = None  # state name: the application sends an order from on_state_change(that state)
             self.raise_on_state = None  # set of state names: on_state_change(that state) raises (failing application callback)
             self.send_on_disconnect = False  # the application tries to send an order from on_disconnect
+            self.in_at_disconnect = None
+            self.disconnect_on_logon = False  # the application ends the session from inside on_logon
             self.raise_on_disconnect = False  # on_disconnect raises after recording the report (failing application callback)
             self.disconnect_filter = None  # callable(msg) -> bool: on_message ends the session (Logout + close) itself
 
@@ -311,6 +313,10 @@ def _mk_endpoint_classes():
         async def on_disconnect(self):
             self.n_disconnect += 1
             self.ev.append(("disconnect",))
+            try:
+                self.in_at_disconnect = num_in(self)  # inbound counter at the moment the disconnect is reported
+            except Exception:  # noqa
+                self.in_at_disconnect = None
             if self.send_on_disconnect:
                 try:
                     await self.send_msg(FIXMessage("D", {11: "fromdisc", 55: "X"}))
@@ -324,6 +330,9 @@ def _mk_endpoint_classes():
             self.n_logon += 1
             self.ev.append(("logon", bool(is_healthy)))
             await self._gate("on_logon")
+            if self.disconnect_on_logon:
+                from asyncfix.connection import ConnectionState
+                await self.disconnect(ConnectionState.DISCONNECTED_WCONN_TODAY, logout_message="not today")
 
         async def on_logout(self, msg):
             self.n_logout += 1
